@@ -33,7 +33,7 @@ REAL_VS_STUB = common.REAL_VS_STUB
 QUICK_RUNS = 2600
 FULL_ENUM_MAX = 400
 EXPECTED_PROBES = {
-    "quick": ["cut_frame_boundary", "cut_ubx_length", "cut_ubx_checksum", "cut_nmea_crlf", "cut_rtcm_crc", "cut_rtcm_hdr", "clean_wires", "dirty_wires", "validate_0"],
+    "quick": ["cut_frame_boundary", "cut_ubx_length", "cut_ubx_checksum", "cut_nmea_crlf", "cut_rtcm_crc", "cut_rtcm_hdr", "clean_wires", "dirty_wires", "validate_0", "big_frame_wires"],
     "thorough": ["cut_frame_boundary", "cut_ubx_length", "cut_ubx_checksum", "cut_nmea_crlf", "cut_rtcm_crc", "clean_wires", "dirty_wires", "validate_0", "sampled_long_wires"],
 }
 VARIANTS = ("file", "close", "timeout")
@@ -55,6 +55,22 @@ def generate(seed: int, tier: str = "quick") -> dict:
         frames = common.gen_frames(r_dev, n, cfg, mix=mix)
     else:
         frames = common.gen_mixed_frames(r_dev, r_lnk, n, cfg, pre)
+    big = r_cfg.random() < 0.04
+    if big:
+        # one frame far larger than any plausible internal block (4 KiB) in front of / between the others
+        from sim import device, wire as W  # pylint: disable=import-outside-toplevel
+
+        nbig = r_cfg.choice((4090, 4094, 4096, 4100, 8190, 9000, 12288))
+        if r_cfg.random() < 0.7:
+            data = W.ubx_frame(r_cfg.choice((0x02, 0x0A, 0x66)), r_cfg.choice((0x13, 0x04, 0x77)), device.payload_bytes(r_dev, nbig, "random"))
+            kind = "ubx"
+        else:
+            data = W.rtcm_frame(device.payload_bytes(r_dev, min(nbig, 1023), "random"))
+            kind = "rtcm"
+        frames = frames[:2]
+        frames.insert(r_cfg.randrange(len(frames) + 1), {"kind": kind, "hex": data.hex(), "faults": [], "note": f"big {kind} frame {len(data)} bytes"})
+        long_wire = True
+        pre.hit("big_frame_wires")
     # keep full enumeration affordable: drop trailing frames until the wire is <= 400 bytes
     if not long_wire:
         while len(frames) > 1 and len(link.wire_of(frames)) > FULL_ENUM_MAX:
@@ -73,7 +89,14 @@ def generate(seed: int, tier: str = "quick") -> dict:
         cuts = None  # all
     else:
         cand = sched.interesting_offsets(spans)
-        cuts = sorted({r_sch.choice(cand) for _ in range(150)} | {r_sch.randrange(wire_len + 1) for _ in range(50)} | {0, wire_len})
+        blocks = set()
+        for start, end, _ in spans:
+            if end - start > 1024:  # block-size multiples inside large frames (relative to frame, header, payload)
+                for base in (start, start + 2, start + 6):
+                    for mult in range(1, (end - base) // 1024 + 1):
+                        for d in (-1, 0, 1):
+                            blocks.add(min(max(base + 1024 * mult + d, 0), wire_len))
+        cuts = sorted({r_sch.choice(cand) for _ in range(150)} | {r_sch.randrange(wire_len + 1) for _ in range(50)} | {0, wire_len} | blocks)
     return {"seed": seed, "config": cfg, "frames": frames, "socket": tr, "clean": clean, "cuts": cuts, "pre_faults": dict(pre)}
 
 
